@@ -51,7 +51,10 @@ type Mod[T any] struct {
 	ClearRes func(string) error
 	// generator
 	Alphabet func(r *rng.R, res []string, ref string) []*T // base rules (ID unset)
-	SetID    func(t *T, id string)
+	// Vary changes exactly one field of t (in place) to another value, keeping the rule valid and
+	// buildable where it was: reloading a list with one rule varied must put the varied rule in force
+	Vary  func(r *rng.R, t *T)
+	SetID func(t *T, id string)
 	Clone    func(t *T) *T
 	// probe: one request on res; returns whether it was blocked and by which rule
 	Probe  func(res string) (blocked bool, by *T)
@@ -141,6 +144,27 @@ func GenCase[T any](m *Mod[T], r *rng.R, prefix string, id int, reuseHeavy bool)
 			}
 			c.Ops = append(c.Ops, o)
 			continue
+		}
+		if k > 0 && m.Vary != nil && r.Chance(3, 20) {
+			// the previous arguments again (fresh objects, fresh IDs) with one field of one rule changed
+			prev := c.Ops[k-1]
+			o := Op[T]{Kind: prev.Kind, Res: prev.Res}
+			var idx []int
+			for j, t := range prev.Rules {
+				if t == nil {
+					o.Rules = append(o.Rules, nil)
+					continue
+				}
+				t2 := m.Clone(t)
+				m.SetID(t2, strconv.Itoa(k*100+j+1))
+				o.Rules = append(o.Rules, t2)
+				idx = append(idx, j)
+			}
+			if len(idx) > 0 {
+				m.Vary(r, o.Rules[idx[r.Intn(len(idx))]])
+				c.Ops = append(c.Ops, o)
+				continue
+			}
 		}
 		var o Op[T]
 		x := r.Intn(20)
